@@ -10,7 +10,7 @@ import (
 
 // SchedCfg selects the scheduling policy of a run.
 type SchedCfg struct {
-	Policy   string // serial | rr | random | pct | explicit
+	Policy   string // serial | rr | random | pct | stall | explicit
 	Seed     uint64
 	Depth    int   // pct change points
 	EntryPct int   // percentage of function entries that are additional yield points
@@ -47,6 +47,8 @@ type Sched struct {
 
 	// pct
 	changeAt map[int]bool
+	// stall
+	stallLeft map[int]int
 
 	// access log / race detection
 	vars      map[int]*varState
@@ -271,6 +273,43 @@ func (s *Sched) pick(r []*Task) *Task {
 			}
 		}
 		return best
+	case "stall":
+		// random scheduling with short, frequent stalls: with probability Depth/1000 the task that has just reached a
+		// yield point (before an atomic operation, a lock, a shared variable, a sampled loop iteration) is held back for
+		// the next 3..Steps scheduling decisions while the others run. The windows of lock-free code - between the load and
+		// the compare-and-swap of a pop, between two critical sections of a check-then-act - are one or two instructions
+		// wide; they are hit when the task inside is descheduled there while OTHERS complete whole operations, which a
+		// uniformly random choice at every step practically never does and a priority schedule does only d times per run.
+		if s.stallLeft == nil {
+			s.stallLeft = map[int]int{}
+		}
+		for id, n := range s.stallLeft {
+			if n <= 1 {
+				delete(s.stallLeft, id)
+			} else {
+				s.stallLeft[id] = n - 1
+			}
+		}
+		pm, maxLen := s.cfg.Depth, s.cfg.Steps
+		if pm <= 0 {
+			pm = 20
+		}
+		if maxLen < 4 {
+			maxLen = 24
+		}
+		if s.last >= 0 && s.stallLeft[s.last] == 0 && s.rng.intn(1000) < pm {
+			s.stallLeft[s.last] = 3 + s.rng.intn(maxLen-2)
+		}
+		var free []*Task
+		for _, t := range r {
+			if s.stallLeft[t.ID] == 0 {
+				free = append(free, t)
+			}
+		}
+		if len(free) == 0 {
+			free = r
+		}
+		return free[s.rng.intn(len(free))]
 	case "explicit":
 		for s.exLeft == 0 && s.exI+1 < len(s.cfg.Explicit) {
 			s.exLeft = s.cfg.Explicit[s.exI+1]
